@@ -126,6 +126,7 @@ const allocSlack = 8 << 20
 const perMessageLimit = 100 << 20
 
 func checkC07(e *core.Env) {
+	curEnv = e
 	e.SetLevel("fault_enumeration")
 	e.SetRule("client side: bodies encoding random message sequences (0..12 messages incl. empty ones) + OK/error trailers are cut at EVERY byte offset with each ending kind (clean io.EOF, io.ErrUnexpectedEOF, arbitrary error) and several read chunkings, replayed through a scripted RoundTripper; hostile length prefixes {0,-1,-2^31,2^31-1,100MiB+-1,101MiB,200MiB,random} at every frame position; random byte flips; data after the trailer. Server side: the same request-body faults into ServeHTTP with a collecting handler. Oracle: delivered messages are an intact prefix of those encoded, success iff the cut is at/after the end of an OK trailer, no panic, TotalAlloc delta <= 100MiB + 32*len(body) + 8MiB; distinct = (side, fault kind, offset class, ending)")
 	endings := []struct {
@@ -133,7 +134,7 @@ func checkC07(e *core.Env) {
 		err  error
 	}{{"eof", io.EOF}, {"unexpected-eof", io.ErrUnexpectedEOF}, {"reset", errors.New("read tcp: connection reset by peer")}}
 
-	nBodies := e.N(14, 120)
+	nBodies := e.N(20, 300)
 	e.Cases("client-cut", nBodies, func(i int, r *rand.Rand) {
 		nm := r.Intn(7)
 		if i%5 == 0 {
